@@ -81,6 +81,11 @@ fn cases(thorough: bool) -> Vec<Case> {
     v.push(case("full-table", "Qs8d2h", &["text:AsAh", "text:KsKh", "text:QdQc", "text:JsJh", "text:TsTh", "text:9s9h", "text:8s8h", "text:7s7h", "text:6s6h"], false, 0, 1176));
     v.push(case("full-table", "Qs8d2h", &["text:AsKs", "text:AhKh", "text:AdKd", "text:AcKc", "text:7s6s", "text:7h6h", "text:7d6d", "text:7c6c", "text:2s2d,3s3d", "text:JsJh,TsTh"], false, 0, 1176 * 4));
     v.push(case("full-table", "2h2d2c", &["text:AsKs", "text:AhKh", "text:AdKd", "text:AcKc", "text:QsJs", "text:QhJh", "text:QdJd", "text:QcJc", "text:TsTh", "text:9s9h"], false, 0, 1176));
+    // a range holding a flop card, for flops that contain the first / the last card of the deck order
+    for flop in ["Ah7d2c", "As7d2h", "AsKh2c", "2s2d2c", "AsAhAd", "Kc7c2c"] {
+        v.push(case("flop-card-in-range", flop, &["text:22,AA,77"], false, 0, 1176 * 18));
+        v.push(case("flop-card-in-range", flop, &["text:A2s+", "text:22,AA"], false, 0, 1176 * 48 * 12));
+    }
     // no players
     v.push(case("no-players", "Qs8d2h", &[], false, 0, 1176));
     // realistic inputs
